@@ -256,7 +256,7 @@ func NewUpstream(addr string, opt Opt) (_ Upstream, err error) {
 			quicConfig.MaxIdleTimeout = idleConnTimeout
 
 			addonCloser = quicCloser
-			t = &http3.RoundTripper{
+			t = &h3RetryRoundTripper{rt: &http3.RoundTripper{
 				TLSClientConfig: opt.TLSConfig,
 				QuicConfig:      quicConfig,
 				Dial: func(ctx context.Context, _ string, tlsCfg *tls.Config, cfg *quic.Config) (quic.EarlyConnection, error) {
@@ -267,7 +267,7 @@ func NewUpstream(addr string, opt Opt) (_ Upstream, err error) {
 					return quicTransport.DialEarly(ctx, ua, tlsCfg, cfg)
 				},
 				MaxResponseHeaderBytes: 4 * 1024,
-			}
+			}}
 		} else {
 			tracker := newConnTracker()
 			t1 := &http.Transport{
@@ -385,6 +385,35 @@ func NewUpstream(addr string, opt Opt) (_ Upstream, err error) {
 	default:
 		return nil, fmt.Errorf("unsupported protocol [%s]", addrURL.Scheme)
 	}
+}
+
+// h3RetryRoundTripper retries a request on a new connection if it failed
+// because the quic connection was closed (e.g. the server closed the cached
+// connection while it was idle). http3.RoundTripper drops the dead connection
+// but does not retry by itself.
+type h3RetryRoundTripper struct {
+	rt *http3.RoundTripper
+}
+
+const h3MaxRetry = 2
+
+func (r *h3RetryRoundTripper) RoundTrip(req *http.Request) (*http.Response, error) {
+	resp, err := r.rt.RoundTrip(req)
+	for i := 0; err != nil && i < h3MaxRetry && isQuicConnClosedErr(err) && req.Context().Err() == nil; i++ {
+		resp, err = r.rt.RoundTrip(req)
+	}
+	return resp, err
+}
+
+func isQuicConnClosedErr(err error) bool {
+	var (
+		appErr   *quic.ApplicationError
+		idleErr  *quic.IdleTimeoutError
+		resetErr *quic.StatelessResetError
+		h3Err    *http3.Error
+	)
+	return errors.As(err, &appErr) || errors.As(err, &idleErr) || errors.As(err, &resetErr) ||
+		(errors.As(err, &h3Err) && h3Err.Remote)
 }
 
 type closerFunc func() error
